@@ -114,7 +114,7 @@ fn run_case(cx: &mut Cx, sub: &mut u64, shape: &str, c: &Case) {
         cx.add("point_checks", 1);
         let v = *v as f64;
         let bad = if c.sign_only {
-            r.abs() > 1e-4 && v.is_finite() && ((v < 0.0) != (r < 0.0))
+            r.abs() > 1e-4 && !v.is_nan() && ((v < 0.0) != (r < 0.0))
                 || (r.abs() > 1e-4 && v.is_nan())
         } else {
             !((v - r).abs() <= 1e-4 * 1f64.max(r.abs()))
@@ -587,7 +587,7 @@ impl Check for C16 {
                 "documented meaning taken from the doc comments: rotation by the right-hand rule in degrees, RepeatX period 2*radius centred on offset, RevolveY about the line x = offset parallel to Y, ReflectXY swaps x and y, Plane::XY / YZ / ZX have normals Z / X / Y".into(),
                 "evaluation through Context::import + ref32 (tree evaluation itself is C12/C13's claim)".into(),
             ],
-            crash_policy: CrashPolicy::Deferred,
+            crash_policy: CrashPolicy::Violation,
             vacuity: vec![("point_checks", 10000)],
             transitions_counter: "evals",
             nontrivial_counter: "nontrivial",
